@@ -31,6 +31,8 @@ func ProbeMain(args []string) int {
 			o.NoRun = true
 		case a == "-v":
 			verbose = true
+		case a == "-repohost":
+			o.RepoHost = true
 		case strings.Contains(a, "="):
 			name, path, _ := strings.Cut(a, "=")
 			b, err := os.ReadFile(path)
@@ -50,6 +52,7 @@ func ProbeMain(args []string) int {
 	}
 	seen := map[string]map[string]int{}
 	rawCodes := map[string]int{}
+	rerunDiffs := 0
 	for i := 0; i < n; i++ {
 		ob := Observe(src, o)
 		for _, c := range components {
@@ -59,8 +62,24 @@ func ProbeMain(args []string) int {
 			seen[c][ob.Get(c)]++
 		}
 		rawCodes[ob.RawCode]++
+		if ob.VMReran && ob.VMRerun != ob.VMFirst() {
+			rerunDiffs++
+			if rerunDiffs == 1 {
+				fmt.Printf("== vm-rerun differs (repetition %d)\n--- first VM\n%s\n--- second VM of the same compile output\n%s\n", i, ob.VMFirst(), ob.VMRerun)
+			}
+		}
+		if ob.TreeReran && ob.TreeRerun != ob.TreeFirst() {
+			rerunDiffs++
+			if rerunDiffs == 1 {
+				fmt.Printf("== tree-rerun differs (repetition %d)\n--- first run\n%s\n--- second run over the same analysed modules\n%s\n", i, ob.TreeFirst(), ob.TreeRerun)
+			}
+		}
 	}
 	rc := 0
+	if rerunDiffs > 0 {
+		rc = 1
+	}
+	fmt.Printf("== reruns that differ from the first run of their repetition: %d\n", rerunDiffs)
 	for _, c := range components {
 		m := seen[c]
 		fmt.Printf("== %s: %d distinct\n", c, len(m))
